@@ -324,7 +324,7 @@ def externalize(ops, kind, rng, extras=True, permute=True, h5name='data.h5', ren
     ops = copy.deepcopy(ops)
     chans = []
     for op in ops:
-        if op.get('op') == 'add' and op.get('kind') == 'channel':
+        if op.get('op') == 'add' and op.get('kind') == 'channel' and not op.get('bad'):
             if partial and 'data' in op['kwargs'] and rng.random() < 0.5:
                 continue           # this channel keeps its inline data: inline and write-time data are then mixed
             d = op['kwargs'].pop('data', None)
@@ -426,3 +426,57 @@ def noise_file(rng, fid='noise', px='nz_', path='noise.dlis'):
     simple_file(rng, spec=ns, mrl=record_length(rng, small=0.7), n_lf=rng.choice([1, 1, 2]), max_width=3, frames=1,
                 nofmt=rng.random() < 0.6, tiny_ok=True)
     return ns.ops + [write_op(ns, path=path, ocs=rng.choice([ns.mrl, ns.mrl + 40, 1 << 20]))]
+
+
+def rejected_assignment(rng, ops, tag='bad_assignment', c=0, p_channel=0.45):
+    """An assignment on an existing (validly added) object which the library must reject; it must leave no trace."""
+    from . import schema
+    cands = [op for op in ops if op.get('op') == 'add' and not op.get('bad') and op.get('h') and op.get('kind') in schema.S]
+    if not cands:
+        return None
+    chans = [op for op in cands if op['kind'] == 'channel']
+    op = pick(rng, chans) if chans and rng.random() < p_channel else pick(rng, cands)
+    kind = op['kind']
+    choices = []
+    if kind == 'channel':
+        choices += [('set_prop', 'cast_dtype', {'$dtype': 'int64'}), ('set_prop', 'cast_dtype', {'$dtype': 'float16'}),
+                    ('set_prop', 'cast_dtype', 'not a dtype'), ('set_prop', 'cast_dtype', {'$dtype': 'bool_'})] * 3
+    choices.append(('set_prop', 'name', 123))
+    choices.append(('set_prop', 'origin_reference', 'x'))
+    for kw, label, t in schema.S[kind]:
+        base = t.split(':')[0]
+        kw = {'eq_type': '_type', 'message_type': '_type', 'measurement_type': '_type'}.get(kw, kw)   # attribute names
+        if base in ('text', 'texts'):
+            choices.append(('set', kw, 12))
+        elif base in ('num', 'nums', 'numsN', 'int'):
+            choices.append(('set', kw, 'tall'))
+        elif base == 'enum':
+            choices.append(('set', kw, 'NOT-A-MEMBER'))
+        elif base == 'status':
+            choices.append(('set', kw, 7))
+        elif base == 'dim':
+            choices.append(('set', kw, [1.5]))
+        elif base in ('ref', 'refs'):
+            choices.append(('set', kw, 'not an object'))
+        if not schema.units_allowed(t) and base in ('text', 'ident', 'status', 'dim', 'texts'):
+            choices.append(('set_units', kw, 'm'))
+    how, what, v = pick(rng, choices)
+    if how == 'set_prop':
+        return {'op': 'set_prop', 'h': op['h'], 'prop': what, 'v': v, 'c': c, 'bad': '%s_%s' % (tag, what)}
+    if how == 'set_units':
+        return {'op': 'set', 'h': op['h'], 'attr': what, 'part': 'units', 'v': v, 'c': c, 'bad': tag + '_units'}
+    return {'op': 'set', 'h': op['h'], 'attr': what, 'part': 'value', 'v': v, 'c': c, 'bad': tag + '_value'}
+
+
+def data_variant(rng, data):
+    """The same datasets with other element types (a later write may bring data of another dtype)."""
+    d = copy.deepcopy(data)
+    swap = {'f8': 'f4', 'f4': 'f8', 'i2': 'i4', 'i4': 'i2', 'u2': 'u4', 'u4': 'u2', 'u1': 'u2', 'i1': 'i2'}
+    changed = False
+    for entry in d.get('arrays') or d.get('datasets') or []:
+        rc = entry[1]
+        dt = rc.get('dtype', '')
+        if rc.get('kind', 'rand') in ('rand', 'hex') and dt[1:] in swap and rng.random() < 0.7 and rc.get('kind') != 'hex':
+            rc['dtype'] = (dt[0] if dt[0] != '|' else '<') + swap[dt[1:]]
+            changed = True
+    return d if changed else None
